@@ -75,6 +75,10 @@ CLAIMED = {
    text="Lexer kernel: the real lexer.Lex and the whole token stream (Next() to EOF) on every byte string of <=2 (thorough 3) bytes - all byte values incl. invalid UTF-8 - alone and - with <=2 free bytes - after fixed prefixes that put the lexer into its modes (string, string template, block comment, after a leading 0; thorough: line comment, fraction, arrow), plus every 3 (4) bytes >= 0x80 alone / in a line comment / string / block comment: no crash and no internal error, every token and the EOF position inside the input, tokens contiguous in order and covering the input (unless lexing stopped at an error token), lines match offsets, columns match offsets in one convention (bytes or characters) for the whole stream; and a pooled lexer that lexed another text before (6 texts leaving mode/bracket/position state behind) yields exactly the tokens of a fresh lexer.",
    note="Part of C37: the lexer only; parser and checker totality/positions are outside (a symbolic AST is out of reach). Bounds: <=2 (3) free bytes per harness, prefixes listed in harness/C37/lexer.go; sync.Pool modelled as 'Get returns the last Put object, else New()'; unicode/utf8.DecodeRune runs from source. Two known findings (unterminated block comment content in no token; column drift after an empty string token), three defects fixed.",
    design="3 C37"),
+ "C44": dict(
+   text="Storage codec kernel: for every scalar storable value - the 14 fixed-width integer/Word/fixed-point kinds, Fix128/UFix128, Bool, Address, Nil (full width), Int/UInt (|x|<2^128), Int128/UInt128/Word128 (256-bit kinds in thorough), ASCII strings <=3 bytes, paths with identifiers <=2 bytes - the real Storable.Encode (through atree.Encoder and fxamacker/cbor's stream encoder executed from source) followed by the real interpreter.DecodeStorable yields a storable of the same kind and content, and re-encoding the decoded storable gives identical bytes; every primitive static type number and optional / variable- and constant-sized array / dictionary / reference / capability static types over symbolic primitive element types round-trip through StaticTypeToBytes / StaticTypeFromBytes to an equal type with identical re-encoding.",
+   note="Part of C44: containers and composites (atree slabs), capability / type / published values, composite, interface and intersection static types, entitlement authorizations, non-ASCII strings (x/text NFC tables) and cross-version stability (needs a stored corpus of old encodings) are outside.",
+   design="3 C44"),
  "C46": dict(
    text="Bounded symbolic model checking of the real rlp.ReadSize/DecodeString/DecodeList SSA: for every input of the stated lengths (all byte values, incl. 8-byte length prefixes up to 2^64-1) an SMT solver shows no run-time panic is reachable and acceptance/result equal an independent reference decoder; every feasible path is also replayed natively.",
    note="Bounds: input length <= 10 (quick) / 14 (thorough) for strings and headers, <= 4 / 5 for unconstrained lists plus lists with a long-form first item up to 10 / 12 bytes. Trusted: go/ssa, my SSA->SMT executor (validated per path against the native build), z3/cvc5. The Cadence wrappers RLPDecodeString/RLPDecodeList are checked too (accept iff the library accepts and consumed all bytes, user error otherwise, same payload/items) with byte arrays as plain element lists symbolically and real atree-backed arrays natively, inputs <= 6/4 bytes.",
@@ -105,7 +109,6 @@ NA_REASON = {
  "C38": "printer round trip AST -> Doc -> text -> parser", "C39": "formatter round trip over ASTs",
  "C41": "JSON codec uses encoding/json and reflection over value graphs",
  "C43": "JSON vs CCF agreement over value graphs",
- "C44": "fxamacker/cbor streaming codec; cross-version stability needs a stored corpus",
  "C48": "program-level (events)", "C49": "program-level (attachments)", "C50": "program-level (access modifiers)",
  "C52": "program-level (evaluation order)",
 }
